@@ -86,7 +86,7 @@ type Tri bool
 
 func (b *Tri) UnmarshalFlag(v string) error {
 	switch v {
-	case "on":
+	case "on", "": // (the empty text too: a bool-kinded type that is treated as a plain flag then "works" while losing its argument)
 		*b = true
 	case "off":
 		*b = false
